@@ -83,6 +83,12 @@ type Scenario struct {
 	// Configure may adjust the scheduler before Build (AtomicPoints, OfferTimers, MapPolicy, ...).
 	Configure func(s *vrt.Sched)
 	Build     func(x *Exec) func(end vrt.EndReason) *Violation
+	// StopWhenMainDone ends the execution as soon as every main thread has finished (leftover
+	// background threads are not run to quiescence).
+	StopWhenMainDone bool
+	// PostCheck, when set, is evaluated in the parent on the merged outcome counts of this scenario
+	// (properties about the SET of reachable outcomes, e.g. independence).
+	PostCheck func(outcomes map[string]int) *Violation
 	// MaxBound / MaxBoundQuick cap the deviation bound for this scenario (0 = use the run's bound).
 	MaxBound      int
 	MaxBoundQuick int
@@ -109,7 +115,11 @@ func runOnce(sc *Scenario, prefix []int, keepTrace bool) execResult {
 	vrt.ResetContexts()
 	s.Begin()
 	check := sc.Build(x)
-	end := s.Run(x, nil)
+	var stop func() bool
+	if sc.StopWhenMainDone {
+		stop = func() bool { return len(s.MainUnfinished()) == 0 }
+	}
+	end := s.Run(x, stop)
 	var v *Violation
 	if x.diverged != "" {
 		ev.Tool("scenario %s: nondeterministic replay: %s\nprefix=%v", sc.Name, x.diverged, prefix)
@@ -458,6 +468,20 @@ func Main(id string, scenarios []*Scenario, plan Plan, level string, assumptions
 			}
 			run.Violation(v.Key, fmt.Sprintf("[%s, bound %d, %d executions] %s", sc.Name, j.Bound, v.Count, v.Desc),
 				map[string]interface{}{"scenario": sc.Name, "choices": v.Choices})
+		}
+	}
+	for _, sc := range scenarios {
+		if sc.PostCheck == nil {
+			continue
+		}
+		own := map[string]int{}
+		for k, v := range outcomes {
+			if strings.HasPrefix(k, sc.Name+": ") {
+				own[strings.TrimPrefix(k, sc.Name+": ")] = v
+			}
+		}
+		if v := sc.PostCheck(own); v != nil {
+			run.Violation(v.Key, fmt.Sprintf("[%s, all executions] %s", sc.Name, v.Desc), map[string]interface{}{"scenario": sc.Name, "choices": []int{}, "post_check": true})
 		}
 	}
 	completed := -1
